@@ -1339,7 +1339,12 @@ impl DbInner {
 
 	fn shutdown(&self) {
 		self.shutdown.store(true, Ordering::SeqCst);
-		self.log_queue_wait.cv.notify_one();
+		{
+			// Notify under the queue lock: a worker that has already seen the flag unset is
+			// either parked by now or still holds the lock, so it can not miss this.
+			let _queue = self.log_queue_wait.work.lock();
+			self.log_queue_wait.cv.notify_one();
+		}
 		self.flush_worker_wait.signal();
 		self.log_worker_wait.signal();
 		self.commit_worker_wait.signal();
